@@ -1,4 +1,4 @@
-import sys, json
+import sys, json, collections
 sys.path.insert(0, '/verif/tools')
 import common, gen, emit
 ok, out = common.harness_build(); assert ok, out
@@ -7,11 +7,20 @@ cases = gen.generate(prof, seed, n)
 t0 = common.now()
 cases, traces = common.run_impl_parallel(cases)
 t1 = common.now()
-src = emit.cases_file(list(zip(cases, traces)), defs=["Definition M := Eval vm_compute in mismatches all_cases.", "Print M."])
+src = emit.cases_file(list(zip(cases, traces)), extra="Spec Check", defs=[
+  "Definition M := Eval vm_compute in mismatches all_cases.", "Print M.",
+  "Definition V := Eval vm_compute in impl_violations all_cases.", "Print V.",
+  "Definition W := Eval vm_compute in model_violations all_cases.", "Print W."])
 out = common.coq_eval(src)
 t2 = common.now()
 M = common.parse_pairs(common.parse_printed(out, "M"))
-print("impl %.1fs coq %.1fs  mismatches %d / %d" % (t1 - t0, t2 - t1, len(M), len(cases)))
-for (i, j) in M[:40]:
-    print(cases[i]["id"], "op", j, cases[i]["ops"][j]["op"], json.dumps(traces[i]["ops"][j]["verdict"])[:200])
-json.dump({"cases": cases, "traces": traces, "M": M}, open("/tmp/try_last.json", "w"))
+V = common.parse_pairs(common.parse_printed(out, "V"))
+W = common.parse_pairs(common.parse_printed(out, "W"))
+print("impl %.1fs coq %.1fs  mismatches %d / %d  implviol %d modelviol %d" % (t1 - t0, t2 - t1, len(M), len(cases), len(V), len(W)))
+for (i, j) in M[:10]:
+    print("MISMATCH", cases[i]["id"], "op", j, cases[i]["ops"][j]["op"], json.dumps(traces[i]["ops"][j]["verdict"])[:200])
+cv = collections.Counter((p, code) for (_, p, _, code) in V)
+print("impl violations by (prop, code):", sorted(cv.items()))
+cw = collections.Counter((p, code) for (_, p, _, code) in W)
+print("model violations by (prop, code):", sorted(cw.items()))
+json.dump({"cases": cases, "traces": traces, "M": M, "V": V, "W": W}, open("/tmp/try_last.json", "w"))
